@@ -43,7 +43,12 @@ def build_set(fl, c, degrees=None):
         term = build_term(fl, t)
         d = degrees[j] if degrees is not None else to_float(a["d"])
         acts.append(fl.Activated(term, d, getattr(fl, a["impl"])()))
-    return fl.Aggregated("o", to_float(c["lo"]), to_float(c["hi"]), getattr(fl, c["aggr"])(), acts)
+    # the range the defuzzifier is GIVEN is the range it integrates over; the fuzzy set's own minimum / maximum attributes are another
+    # matter: every third set carries none (NaN), every third a wider one
+    build_set.n = getattr(build_set, "n", 0) + 1
+    lo_, hi_ = to_float(c["lo"]), to_float(c["hi"])
+    own = (lo_, hi_) if build_set.n % 3 == 0 else (math.nan, math.nan) if build_set.n % 3 == 1 else (lo_ - 3.0, hi_ + 5.0)
+    return fl.Aggregated("o", own[0], own[1], getattr(fl, c["aggr"])(), acts)
 
 
 def sampled(agg, x):
